@@ -41,6 +41,13 @@ def run(ck: vlib.Check):
     built, props_ok, drv_ok = common_build(ck, "props/C01.v", ["proofs/C01_proofs.vo"])
     rng = ck.rng
     cases = [(f"fixture:{n_}", b, ["fixture"]) for n_, b in fixtures()]
+    # stream-buffer boundaries: a chunk header that starts 0..8 bytes before a multiple of the usual buffer / block sizes
+    for B in (4096, 8192, 16384, 65536):
+        for k in range(0, 9):
+            pad = B - k - 8                      # first chunk = 8-byte header + pad bytes: the next header starts at B - k
+            b = S.frame(b"PAD0", bytes((7 * i + k) % 251 for i in range(pad))) + S.frame(b"VER ", b"\xcd\x00") + \
+                S.frame(b"SWNM", bytes(1024)) + S.frame(b"TAIL", b"end")
+            cases.append((f"boundary:{B}-{k}", b, ["buffer-boundary"]))
     for i in range(n):
         b, kinds = S.gen_wellformed_chk(rng)
         cases.append((f"gen:{i}", b, kinds))
@@ -61,6 +68,21 @@ def run(ck: vlib.Check):
                          {"kind": "roundtrip", "label": label, "input_hex": small.hex(),
                           "result": describe(S.impl_roundtrip(small))}, True)
             break
+    # the file API (decode_chk_file reads through the OS's buffered file object) on the boundary family and the fixtures
+    import tempfile
+    from richchk.io.chk.chk_io import ChkIo
+    with tempfile.TemporaryDirectory(dir=str(vlib.BUILD)) as td:
+        for label, b, kinds in cases:
+            if "buffer-boundary" in kinds or "fixture" in kinds:
+                pth = Path(td) / "in.chk"
+                pth.write_bytes(b)
+                r = vlib.impl_result(lambda: list(ChkIo().encode_chk_to_bytes(ChkIo().decode_chk_file(str(pth)))))
+                ck.evaluations += 1
+                if r != [1, list(b)]:
+                    ck.violation(f"decode_chk_file -> encode_chk_to_bytes != the file's bytes ({label})",
+                                 {"kind": "roundtrip-file", "label": label, "input_hex": b.hex() if len(b) < 200000 else None,
+                                  "result": describe(r)}, True)
+                    break
     # one ChkIo object for a whole session, with FAILING calls in between (a decode of garbage; an encode that raises
     # after some sections were already written): every later call must answer as a fresh object does
     sess = session_results([b for _, b, _ in cases[:len(impl_rt)]])
